@@ -9,7 +9,8 @@ func init() {
 		Canary:  []CanaryExpect{{Rule: "MAPORDER", Bad: "canaryBadSkipAppend", Good: "canaryGoodMapLoop"}, {Rule: "KIND-STORE", Bad: "canaryBadStoreSwap", Good: "canaryGoodStore"}},
 		Explain: otherNote + "C10: decided = parser, printer and FieldParams of ExtendedSpatialID agree position by position; the two notation conversions are the canonical permutations (layout inference), one output per input in order; the expansion targets max(h,v), raises only the coarser axis with C03's functions and copies the other axis; arity guards. Region equality / counts of the expansion are NOT decided."})
 	register(&propSpec{ID: "C11", Level: "other", Run: runC11,
-		Canary:  []CanaryExpect{{Rule: "ELEMENTWISE", Bad: "canaryBadPrevCache", Good: "canaryGoodNoState"}, {Rule: "CACHE-KEY", Bad: "canaryBadMemoKey", Good: "canaryGoodMemoKey"}},
+		Canary: []CanaryExpect{{Rule: "ELEMENTWISE", Bad: "canaryBadPrevCache", Good: "canaryGoodNoState"}, {Rule: "ELEMENTWISE", Bad: "canaryBadCarriedTile", Good: "canaryGoodNoState"}, {Rule: "CACHE-KEY", Bad: "canaryBadMemoKey", Good: "canaryGoodMemoKey"},
+			{Rule: "KIND-STORE", Bad: "canaryBadNarrowIndex", Good: "canaryGoodWideIndex"}, {Rule: "KIND-LAYOUT", Bad: "canaryBadTrimCutset", Good: "canaryGoodTrimPrefix"}},
 		Explain: otherNote + "C11: decided = groups report the request's zooms/height/base parameters unchanged (argument kinds at the constructors); a pair is appended only behind a miss on the cross-ID map; per-ID scratch lists are fresh; per-axis zoom change is integrate.HorizontalZoom/VerticalZoom with correctly wired roles; encoder/decoder are integer-only; zoom domain and malformed-ID guards. Bit-interleaving bijectivity is NOT decided."})
 	register(&propSpec{ID: "C12", Level: "other", Run: runC12,
 		Explain: otherNote + "C12: decided = every resolution change of a vertical index/key is a signed shift (floor); all callers consume both bounds (known finding for the detector under C05); index-existence tests accept exactly [-2^z,2^z-1] / [0,2^z-1]; both returned bounds are range-checked; the scale(index+1)-1 form is guarded or clamped; failure returns carry (0,0). The interval-cover arithmetic itself is NOT decided.",
@@ -82,7 +83,7 @@ func runC11(w *World, r *Report, tier string) {
 	for _, n := range names {
 		ruleElementwise(w, r, n, 0)
 	}
-	for _, n := range []string{"transform.canaryBadPrevCache", "transform.canaryGoodNoState"} {
+	for _, n := range []string{"transform.canaryBadPrevCache", "transform.canaryGoodNoState", "transform.canaryBadCarriedTile"} {
 		if lookupByName(w, n) != nil {
 			ruleElementwise(w, r, n, 0)
 		}
